@@ -44,13 +44,13 @@ func c16RC(mode string) (string, map[string]string) {
 }
 
 type c16Case struct {
-	buf    string
-	pos    int
-	mark   int // -1 none
-	kills  []string
-	arg    bool
-	mode   string
-	viCnt  int
+	buf   string
+	pos   int
+	mark  int // -1 none
+	kills []string
+	arg   bool
+	mode  string
+	viCnt int
 }
 
 func (cs c16Case) String() string {
